@@ -216,7 +216,8 @@ def main(argv):
         # (d) generated PCB-style call sites (TH07/TH08 ECL): argument registers assigned in canonical, shuffled or partial
         #     order before `call(sub)`, several call sites per sub (the decompiler infers each sub's signature from them)
         npcb = 24 if tier == 'quick' else 600
-        def pcb_source(r2, game='07'):
+        PCB_UMAP = '!eclmap\n!gvar_names\n10900 MY_COUNTER\n10901 MY_SPEED\n10902 my_other\n'
+        def pcb_source(r2, game='07', umap=False):
             ints = ['ARG_A', 'ARG_B', 'ARG_C', 'ARG_D']; floats = ['ARG_R', 'ARG_S', 'ARG_M', 'ARG_N']
             nsub = r2.randint(1, 3)
             sigs = [(r2.randint(0, 2), r2.randint(0, 2)) for _ in range(nsub)]
@@ -240,24 +241,34 @@ def main(argv):
                     for lb in labels:
                         v_ = r2.randint(0, 9)
                         out.append('    {"%s"}: %s' % (lb, ['ins_27(I0, %d);' % v_, 'ins_28(F0, %d.0);' % v_, 'I1 = %d;' % v_][kind]))
+            if umap:
+                # registers that only the USER mapfile names (and gives no type): every use needs its sigil
+                out.insert(len(out), '    $REG[10900] = %d;' % r2.randint(0, 9))
+                out.append('    %%REG[10901] = %d.0;' % r2.randint(0, 9))
+                out.append('    I0 = $REG[10900] + 1;')
+                out.append('    F0 = %REG[10901] + %REG[10902];')
             out.append('}'); out.append('')
             return '\n'.join(out)
         def compile_pcb(i):
             r2 = random.Random(seed * 7919 + i)
             game = r2.choice(['06', '07', '08'])
             d = os.path.join(work, 'pcb%d' % i); os.makedirs(d, exist_ok=True)
-            src = os.path.join(d, 'in.spec'); open(src, 'w').write(pcb_source(r2, game))
+            umap = game != '06' and r2.random() < 0.5   # (EoSD recognises registers by value: an unknown id is just a number)
+            src = os.path.join(d, 'in.spec'); open(src, 'w').write(pcb_source(r2, game, umap))
             out = os.path.join(d, 'in.bin')
+            maps = ['map/any.eclm']
+            if umap:
+                mp = os.path.join(d, 'user.eclm'); open(mp, 'w').write(PCB_UMAP); maps.append(mp)
             rc, err = cli(['truecl', 'compile', '-g', game, src, '-o', out, '-m', 'map/any.eclm'], cwd=REPO)
             if rc != 0 or not os.path.exists(out): return None
-            return (game, out, i)
+            return (game, out, i, maps)
         with ThreadPoolExecutor(16) as ex:
             pcb_bins = [r for r in ex.map(compile_pcb, range(npcb)) if r]
         stats['pcb_calls'] = npcb; stats['pcb_calls_compiled'] = len(pcb_bins)
-        for game, binary, i in pcb_bins:
+        for game, binary, i, pmaps in pcb_bins:
             for s_ in [[]] + rng.sample(ALL_SUBSETS[1:], 1 if tier == 'quick' else 3):
                 w = rng.choice([20, 80, 100]) if tier == 'quick' else rng.randint(1, 200)
-                jobs.append({'tool': 'truecl', 'game': game, 'binary': binary, 'mapfiles': ['map/any.eclm'], 'opts': s_, 'width': w, 'tag': 'generated:pcbcalls%d' % i})
+                jobs.append({'tool': 'truecl', 'game': game, 'binary': binary, 'mapfiles': pmaps, 'opts': s_, 'width': w, 'tag': 'generated:pcbcalls%d' % i})
     if replay:
         r = json.load(open(replay))
         j = r['job']
